@@ -24,7 +24,9 @@ ROOT = os.path.dirname(os.path.dirname(os.path.abspath(__file__)))
 ALSO = {"C19-2": ["C15"], "C07-3": ["C15"], "C09-3": ["C16"],
         "C14-3": ["C16"], "C16-4": ["C14"], "C17-3": ["C16"],
         "C01-4": ["C04"], "C05-3": ["C09"], "C11-3": ["C07"],
-        "C18-3": ["C13"], "C19-4": ["C15"]}
+        "C18-3": ["C13"], "C19-4": ["C15"],
+        # round 3
+        "C01-6": ["C08"], "C03-6": ["C17"]}
 
 
 def run(check, patch, tier, seed="1"):
